@@ -390,7 +390,11 @@ def run(ctx):
             return c.v
         nb = 0
         CLS = [(-128, 45), (46, 46), (47, 47), (48, 127)]        # '.', '/', and everything below / above them
-        for (bx, r, it) in absint.explore(P, runs, [list(c_) for c_ in _it.product(CLS, repeat=L)]):
+        try:
+            explored = list(absint.explore(P, runs, [list(c_) for c_ in _it.product(CLS, repeat=L)]))
+        except absint.OutOfBounds as e_:
+            return 'inputs of %d bytes: %s (the cursor left the string)' % (L, e_), nb
+        for (bx, r, it) in explored:
             nb += 1
             if not isinstance(r, Arr):
                 return 'box %s: result is not a string' % (bx,), nb
